@@ -14,6 +14,8 @@ THEOREMS = [
     'OpenHTF.Exec.c01_repeat_on_timeout_counterexample',
     'OpenHTF.Exec.c01_records_only_appended',
     'OpenHTF.Exec.c01_declared_phases_accounted_partial',
+    'OpenHTF.Exec.c01_pass_means_declared_phases_ran',
+    'OpenHTF.Exec.exec_term_last',
     'OpenHTF.Exec.runTest_ErrInv',
     'OpenHTF.Exec.runTest_LastTerm',
 ]
@@ -183,7 +185,8 @@ MANIFEST = {
             'Converse decision table and "a PASS record certifies CONTINUE + passing measurements + no failure diagnosis" '
             'are theorems too, as are "no traversal step removes or rewrites a record" and "a node outside subtests that '
             'returns CONTINUE left a record for every phase it declares unconditionally, at any depth of sequences and '
-            'groups" (accounted, partial). Tie: real Test.execute() on exhaustive small trees x configurations, random and near-pass '
+            'groups" (accounted, partial), lifted to the run: outcome PASS implies every such phase of the test has a record, '
+            'none of them FAIL. Tie: real Test.execute() on exhaustive small trees x configurations, random and near-pass '
             'trees; NoFalsePass (incl. execute() return value, executor crash, every declared phase accounted for) is '
             'evaluated by the Lean spec on the real observation.',
     'note': 'Trusted: Lean kernel + standard axioms; harness/exec_common.py; Lean driver. Pending as a theorem (checked on '
